@@ -7,6 +7,7 @@ acceptor (proved sound for the all-interleavings theorem).  (2) CLI runs with
 --progress vs --no-progress: identical stdout, final progress lines equal to
 the census counts (and #references + #ROOTs)."""
 import json
+import os
 import random
 import re
 import subprocess
@@ -189,6 +190,35 @@ def run(ctx):
                         "Processing references": len(sc.refs), "Matching commits to trees": j["unique_commit_count"]}
                 if finals != want:
                     res.violations.append(vlib.Violation("final progress lines differ from the census", inp, expected=want, observed=finals))
+        # progress on, a stderr that cannot be written (/dev/full, a read-only descriptor) and phases that outlast several
+        # ticker periods (21000 blobs through the fake git): stdout and the exit status are those of --no-progress
+        import subprocess as _sp
+        big = S.Scenario()
+        bbl = [big.add({"kind": "blob", "size": 10 + i, "data": None}) for i in range(21000)]
+        bt = big.add({"kind": "tree", "entries": [(0o100644, b"f%05d" % i, b) for i, b in enumerate(bbl)]})
+        bc = big.add({"kind": "commit", "tree": bt, "parents": []})
+        big.refs.append((b"refs/heads/main", bc))
+        big.compute()
+        bj = big.fakegit_json(big.enum_gitlike([bc]))
+        fdir = S.fakegit_dir(eng.bins, eng.scratch)
+        scp = os.path.join(eng.scratch, "scenario-unwritable.json")
+        json.dump(bj, open(scp, "w"))
+        fenv = S.clean_env({"PATH": fdir + ":" + os.environ.get("PATH", ""), "FAKEGIT_SCENARIO": scp, "FAKEGIT_LOG": os.path.join(eng.scratch, "log-unwritable.jsonl")})
+        wdir = os.path.join(eng.scratch, "wd")
+        os.makedirs(wdir, exist_ok=True)
+        ref = _sp.run([eng.bins["sizer"], "--json", "--no-progress"], cwd=wdir, env=fenv, stdout=_sp.PIPE, stderr=_sp.PIPE, timeout=300)
+        for what, opener in (("/dev/full", lambda: open("/dev/full", "wb")), ("a descriptor opened read-only", lambda: open("/dev/null", "rb"))):
+            with opener() as fh:
+                try:
+                    pr = _sp.run([eng.bins["sizer"], "--json", "--progress"], cwd=wdir, env=fenv, stdout=_sp.PIPE, stderr=fh, timeout=300)
+                    rcw, outw = pr.returncode, pr.stdout
+                except _sp.TimeoutExpired:
+                    rcw, outw = "timeout", b""
+            res.case(("unwritable-stderr", what), True)
+            if rcw != ref.returncode or outw != ref.stdout:
+                res.violations.append(vlib.Violation("with --progress and a stderr that cannot be written (%s) the outcome differs from --no-progress" % what,
+                                                     {"args": ["--json", "--progress"], "stderr": what, "repository": "21000 blobs (fake git)"},
+                                                     expected={"rc": ref.returncode, "stdout_bytes": len(ref.stdout)}, observed={"rc": rcw, "stdout_bytes": len(outw)}))
         # the 32-bit build (the project releases linux/386 and windows/386): 64-bit atomics on the meter's counter need an
         # alignment that only such a build can get wrong
         s386 = vlib.build_sizer_arch("386")
